@@ -39,20 +39,44 @@ const DOC_SPECS: &[&str] = &[
     "%x", "%F", "%v", "%H", "%k", "%I", "%l", "%P", "%p", "%M", "%S", "%f", "%.f", "%.3f", "%.6f", "%.9f", "%3f", "%6f", "%9f",
     "%R", "%T", "%X", "%r", "%Z", "%z", "%:z", "%::z", "%:::z", "%#z", "%c", "%+", "%s", "%t", "%n", "%%",
 ];
-/// the Example column of the documentation table (strftime.rs module doc), rows with a non-empty cell
-const DOC_EXAMPLES: &[(&str, &str)] = &[
-    ("%Y", "2001"), ("%C", "20"), ("%y", "01"), ("%q", "1"), ("%m", "07"), ("%b", "Jul"), ("%B", "July"), ("%h", "Jul"), ("%d", "08"),
-    ("%e", " 8"), ("%a", "Sun"), ("%A", "Sunday"), ("%w", "0"), ("%u", "7"), ("%U", "28"), ("%W", "27"), ("%G", "2001"), ("%g", "01"),
-    ("%V", "27"), ("%j", "189"), ("%D", "07/08/01"), ("%x", "07/08/01"), ("%F", "2001-07-08"), ("%v", " 8-Jul-2001"), ("%H", "00"),
-    ("%k", " 0"), ("%I", "12"), ("%l", "12"), ("%P", "am"), ("%p", "AM"), ("%M", "34"), ("%S", "60"), ("%f", "26490000"),
-    ("%.f", ".026490"), ("%.3f", ".026"), ("%.6f", ".026490"), ("%.9f", ".026490000"), ("%3f", "026"), ("%6f", "026490"),
-    ("%9f", "026490000"), ("%R", "00:34"), ("%T", "00:34:60"), ("%X", "00:34:60"), ("%r", "12:34:60 AM"), ("%Z", "ACST"),
-    ("%z", "+0930"), ("%:z", "+09:30"), ("%::z", "+09:30:00"), ("%:::z", "+09"), ("%#z", "+09"),
-    ("%c", "Sun Jul  8 00:34:60 2001"), ("%+", "2001-07-08T00:34:60.026490+09:30"), ("%s", "994518299"),
-];
-/// example cells that are not what the crate prints (theorem `doc_examples_divergent`): what it prints instead
-/// (`%#z` is parsing-only: formatting fails)
-const DOC_EXAMPLE_DIVERGENT: &[(&str, &str)] = &[("%q", "3"), ("%U", "27"), ("%f", "026490000"), ("%Z", "+09:30"), ("%#z", "")];
+/// the module source of the crate under test: the documentation table is read from it at build time (cargo
+/// rebuilds the harness when the file changes), independently of tools/extractors/strftime_doc.py
+const STRFTIME_RS: &str = include_str!("/repo/src/format/strftime.rs");
+
+/// rows of the "Specifiers" table of the module doc comment: (specifier incl. `%`, Example cell without back-ticks)
+fn doc_example_rows() -> Vec<(String, String)> {
+    let start = STRFTIME_RS.find("## Specifiers").expect("doc table");
+    let end = STRFTIME_RS.find("It is possible to override the default padding").expect("doc table end");
+    let mut rows = vec![];
+    for ln in STRFTIME_RS[start..end].lines() {
+        if !ln.starts_with('|') {
+            continue;
+        }
+        let cells: Vec<&str> = ln.split('|').collect();
+        if cells.len() != 5 {
+            continue;
+        }
+        let spec = cells[1].trim();
+        if !(spec.starts_with("`%") && spec.ends_with('`') && spec.len() >= 4) {
+            continue;
+        }
+        let ex = cells[2].trim();
+        let ex = if ex.len() >= 2 && ex.starts_with('`') && ex.ends_with('`') { &ex[1..ex.len() - 1] } else { ex };
+        rows.push((spec[1..spec.len() - 1].to_string(), ex.to_string()));
+    }
+    rows
+}
+
+/// footnote 7: "7μs is formatted as `X` with `%f`, and formatted as `Y` with `%.f`"
+fn doc_footnote7() -> Option<(String, String)> {
+    let i = STRFTIME_RS.find("Example: 7μs is formatted as `")?;
+    let rest = &STRFTIME_RS[i + "Example: 7μs is formatted as `".len()..];
+    let x = &rest[..rest.find('`')?];
+    let j = rest.find("and formatted as `")?;
+    let rest2 = &rest[j + "and formatted as `".len()..];
+    let y = &rest2[..rest2.find('`')?];
+    Some((x.to_string(), y.to_string()))
+}
 /// numeric specifiers, the only ones that take a padding modifier
 const NUM_LETTERS: &[char] = &['Y', 'C', 'y', 'q', 'm', 'd', 'e', 'w', 'u', 'U', 'W', 'G', 'g', 'V', 'j', 'H', 'k', 'I', 'l', 'M', 'S', 'f', 's'];
 const PREFIXES: &[&str] = &["", "-", "0", "_", "#", ".", ".3", ".6", ".9", "3", "6", "9", ":", "::", ":::", "-#", "#-", "--", ".f", "-.", "-3"];
@@ -769,7 +793,7 @@ pub fn run(c: &mut Ctx) {
 
 
     // ---- the documentation table read as TEXT: example column and per-type availability --------------------
-    // (Spec/StrftimeDocSpec.lean `docRows`; theorems doc_examples_partial / doc_examples_divergent /
+    // (Spec/StrftimeDocSpec.lean `docRows`; theorems doc_examples_ok /
     //  entry_point_specifier).  The example value of the documentation: 2001-07-08T00:34:60.026490+09:30.
     {
         use std::fmt::Write;
@@ -783,20 +807,40 @@ pub fn run(c: &mut Ctx) {
                 f(&mut s).map(|_| s).map_err(|_| ())
             })
         };
-        for (spec, example) in DOC_EXAMPLES {
+        // EVERY Example cell of the documentation (as it stands in the source now) is what the crate prints for
+        // the documentation's example value.  The two rows the documentation itself explains: `%Z` (footnote 8:
+        // only the offset is printed, "identical to `%:z`") and the parsing-only `%#z` (must fail).
+        let rows = doc_example_rows();
+        if rows.len() < 50 {
+            c.fail("documentation table of strftime.rs not recognised", &format!("{} rows", rows.len()));
+        }
+        for (spec, example) in &rows {
+            if example.is_empty() {
+                continue;
+            }
             let got = show(&|s| write!(s, "{}", ex.format(spec)));
-            match DOC_EXAMPLE_DIVERGENT.iter().find(|(s, _)| s == spec) {
-                None => {
-                    c.count("doc-example:checked");
-                    if got != Ok(Ok(example.to_string())) {
-                        c.fail("specifier does not print the Example cell of its documentation row", &format!("{} on {} -> {:?}, documentation example {:?}", spec, ex, got, example));
-                    }
-                }
-                Some((_, observed)) => {
-                    // documentation error already recorded (theorem doc_examples_divergent): reported under its own prefix
-                    c.count(&format!("DOC-EXAMPLE-DIVERGENT {} documentation {:?} crate {:?}", spec, example, observed));
-                    if got != Ok(Ok(observed.to_string())) && !(observed.is_empty() && got == Ok(Err(()))) {
-                        c.fail("DOC-EXAMPLE-DIVERGENT: crate output differs from the recorded divergence", &format!("{} -> {:?}", spec, got));
+            c.count("doc-example:checked");
+            let want: Result<Result<String, ()>, ()> = match spec.as_str() {
+                "%Z" => show(&|s| write!(s, "{}", ex.format("%:z"))),
+                "%#z" => Ok(Err(())),
+                _ => Ok(Ok(example.clone())),
+            };
+            if got != want {
+                c.fail(
+                    "specifier does not print the Example cell of its documentation row",
+                    &format!("{}.format({:?}) -> {:?}, documentation example {:?} (expected {:?})", ex, spec, got, example, want),
+                );
+            }
+        }
+        match doc_footnote7() {
+            None => c.fail("footnote 7 of the strftime documentation not recognised", ""),
+            Some((f, dotf)) => {
+                let t7 = mk_time(0, 7000);
+                for (spec, want) in [("%f", f), ("%.f", dotf)] {
+                    let got = show(&|s| write!(s, "{}", t7.format(spec)));
+                    c.count("doc-example:footnote7");
+                    if got != Ok(Ok(want.clone())) {
+                        c.fail("specifier does not print the example of documentation footnote 7", &format!("00:00:00.000007 .format({:?}) -> {:?}, documentation {:?}", spec, got, want));
                     }
                 }
             }
